@@ -180,7 +180,8 @@ FUNCS = {
              'contains(self._rx_queue, old(self._rx_id)) and '
              'eqv(lookup(self._rx_queue, old(self._rx_id)).total_length, sx(extmap, 1)) and '
              'forall(k, "Int", implies(not (k == old(self._rx_id)), contains(self._rx_queue, k) == old(contains(self._rx_queue, k)))))',
-             ['C13']),
+             # (C18: the id announced is the fresh receive id, and the queue gains exactly that id)
+             ['C13', 'C18']),
             ('nothing_queued_while_octets_missing',
              'implies(not rejected(self, sock) and not covered_after(self, conv, extmap), '
              'self._rx_queue == old(self._rx_queue) and ghost.u_rx_finished == old(ghost.u_rx_finished) and '
